@@ -155,10 +155,20 @@ def check_refusal_ctor(ctx, m):
     D = m.cls("discopy.monoidal.Diagram")
     params = [a.arg for a in fn.args.args[1:]]
     bad = []
-    for x in ast.walk(fn):
-        if isinstance(x, ast.Attribute) and isinstance(x.value, ast.Name) and x.value.id in params and isinstance(x.ctx, ast.Load):
-            if m.lookup(D, x.attr) is None and x.attr not in ("dom", "cod", "boxes", "offsets", "layers"):
-                bad.append(ast.unparse(x))
+
+    def scan(f, names, where):
+        for x in ast.walk(f):
+            if isinstance(x, ast.Attribute) and isinstance(x.value, ast.Name) and x.value.id in names and isinstance(x.ctx, ast.Load):
+                if m.lookup(D, x.attr) is None and x.attr not in ("dom", "cod", "boxes", "offsets", "layers"):
+                    bad.append(where + ast.unparse(x))
+            # the boxes handed on to a helper of the package (e.g. a message template): the helper is held to the same rule
+            if isinstance(x, ast.Call) and any(isinstance(a, ast.Name) and a.id in names for a in x.args):
+                r = m.resolve(M if f is fn else "discopy.messages", ast.unparse(x.func)) if not ast.unparse(x.func).startswith(("super", "str", "repr", "format")) else None
+                if r and r[0] == "function" and r[1] in m.functions and m.functions[r[1]] is not f:
+                    g = m.functions[r[1]]
+                    passed = {g.args.args[k].arg for k, a in enumerate(x.args) if isinstance(a, ast.Name) and a.id in names and k < len(g.args.args)}
+                    scan(g, passed, r[1].rsplit(".", 1)[-1] + ": ")
+    scan(fn, set(params), "")
     ctx.ob("R05.6", "discopy.rewriting.InterchangerError.__init__", not bad, found=sorted(set(bad)) or "formats its arguments with str()", required="only attributes every diagram has (a box of a layer may be a composite "
            "diagram, e.g. after foliation): otherwise the refusal raises AttributeError instead of InterchangerError", mod=M, node=fn, sig="refusal-ctor")
 
